@@ -14,7 +14,13 @@ from pathlib import Path
 from .common import scratch_dir
 
 # p1 and p3 share their file name on purpose: an entry is keyed by its whole relative path (C09: "path ... unchanged"); p2 has a blank in its name
-PATHS = {"p1": "a.py", "p2": "pkg/b c.py", "p3": "pkg/sub/a.py"}
+# p4 is a file of another language: what an entry holds is the analysis of its content AS the language of its path
+PATHS = {"p1": "a.py", "p2": "pkg/b c.py", "p3": "pkg/sub/a.py", "p4": "pkg/b.js"}
+LANG = {"p4": "JavaScript"}
+
+
+def lang_of(p):
+    return LANG.get(p, "Python")
 
 
 def _body(n, start=0):
@@ -29,6 +35,8 @@ CONTENTS = {
 # a near twin of c1: the same text behind a byte order mark - other bytes (another checksum), another analysis (the first
 # column moves), and nothing else; "content unchanged" is a statement about the bytes of the file
 CONTENTS["c4"] = "\ufeff" + CONTENTS["c1"]
+# a text with a function in JavaScript and none in Python
+CONTENTS["c5"] = "function epsilon(a) {\n  let v = a;\n  return v;\n}\n"
 TAINT_NAME = "TAINTED"
 
 
@@ -41,13 +49,13 @@ _FRESH = None
 
 
 def fresh_results():
-    """Result of analysing each content from scratch (the oracle `fresh scan`), keyed by content id."""
+    """Result of analysing each content from scratch (the oracle `fresh scan`), keyed by (content id, language)."""
     global _FRESH
     if _FRESH is None:
         from .langs import analyse
 
-        _FRESH = {c: [list(m) for m in analyse("Python", t)] for c, t in CONTENTS.items()}
-        assert len({json.dumps(v) for v in _FRESH.values()}) == len(_FRESH)
+        _FRESH = {(c, lang): [list(m) for m in analyse(lang, t)] for c, t in CONTENTS.items() for lang in sorted({"Python"} | set(LANG.values()))}
+        assert len({json.dumps(v) for (c, lang), v in _FRESH.items() if lang == "Python"}) == len(CONTENTS)
     return _FRESH
 
 
@@ -115,9 +123,13 @@ class World:
                 if any(m[0] == TAINT_NAME for m in ms):
                     r = "tainted"
                 else:
-                    r = next((c for c, x in fresh.items() if x == ms), "other")
+                    # whose analysis is this? the content the checksum names if it fits (several contents may have the same
+                    # analysis in a language in which they hold no function), else any other content that fits
+                    lang = lang_of(p)
+                    fits = [c for c in CONTENTS if fresh[(c, lang)] == ms]
+                    r = s if s in fits else (fits[0] if fits else "other")
                     # the payload of an entry is everything but its key and checksum: language and line total too
-                    if r != "other" and (v.get("language") != "Python" or v.get("loc") != sum(m[5] for m in ms)):
+                    if r != "other" and (v.get("language") != lang or v.get("loc") != sum(m[5] for m in ms)):
                         r = "other"
                 ent[p] = {"sum": s, "res": r}
             ver = "tool" if d.get("version") == tool_version() else "foreign"
